@@ -35,6 +35,11 @@ type Interp struct {
 	Invokes map[string]Model // by types.Func.FullName() of interface methods
 	// PhiOverride replaces the value of a loop-header phi (key "Func:comment") on loop entry.
 	PhiOverride map[string]Val
+	// HavocPhi, when set, is asked for the entry value of every loop-header phi
+	// (on the forward edge into the loop); returning ok replaces the initial
+	// value, which models "the loop is at an arbitrary iteration": state
+	// carried from earlier iterations is unknown.
+	HavocPhi func(fn *ssa.Function, phi *ssa.Phi, key string) (Val, bool)
 	LastPhi     map[string]Val
 	// InlinePrefix limits inlining to functions of the module under analysis.
 	InlinePrefix string
@@ -267,6 +272,12 @@ func (in *Interp) block(fr *frame, b *ssa.BasicBlock) (next *ssa.BasicBlock, ret
 			if ov, ok := in.PhiOverride[key]; ok && fr.prev != nil && fr.prev.Index < b.Index {
 				fr.env[i] = ov
 				continue
+			}
+			if in.HavocPhi != nil && fr.prev != nil && !b.Dominates(fr.prev) && isLoopHeaderPhi(b, i) {
+				if hv, ok := in.HavocPhi(fr.fn, i, key); ok {
+					fr.env[i] = hv
+					continue
+				}
 			}
 			found := false
 			for k, pred := range b.Preds {
@@ -902,4 +913,14 @@ func sizeOf(k types.BasicKind) int {
 		return 4
 	}
 	return 8
+}
+
+// isLoopHeaderPhi: the block has a back edge (a predecessor it dominates).
+func isLoopHeaderPhi(b *ssa.BasicBlock, _ *ssa.Phi) bool {
+	for _, p := range b.Preds {
+		if b.Dominates(p) {
+			return true
+		}
+	}
+	return false
 }
